@@ -386,7 +386,7 @@ func workC01Include(w *run.W) {
 // c01InjectDocs: compact documents that visit every kind of region (keyword line, parameters, annotation, schema body
 // with comments and notes, enum body, regex body, free text, explicit context, macro, include-free).
 var c01InjectDocs = []string{
-	"JSIGHT 0.3\nTYPE @t // a\n{ # c1\n  \"k\": 1, // n\n  \"e\": \"a\" // {enum: @e}\n}\nENUM @e\n[\"a\", // c2\n \"b\"]\nGET /p/{i} // g\n  Description\n    te xt\n  Path\n  {\"i\": 1}\n  200 @t\n  404 regex\n  /x+/\nINFO\n  Title \"T\"\n  Description\n    last\n",
+	"JSIGHT 0.3\nTYPE @t // a\n{ # c1\n  \"k\": 1, // n\n  \"e\": \"a\" // {enum: @e}\n}\nENUM @e\n[\"a\", // c2\n \"b\"]\nGET /p/{i} // g\n  Description\n    te xt\n  Path\n  {\"i\": 1}\n  200 @t\n  404 regex\n  /x+/\nINFO\n  Title \"T\"\n  Description\n    one\n  \n    last\n",
 	"JSIGHT 0.3\nMACRO @m\n(\n  Request\n    Headers\n    {\"h\": \"v\"}\n    Body any\n)\nURL /u\n  Protocol json-rpc-2.0\n  Method f /* a */\n    Description\n    (\n      t\n    )\n    Params\n    [1] # c\n    Result\n    @t\nPOST /q\n  PASTE @m\n  200\n  {} // n\nTYPE @t\n  12 // {min: 1}\n",
 }
 
